@@ -97,6 +97,10 @@ CoveredUnique(old, new, os, oe, ns, ne, ops) ==
   LET U == CommonUnique(Slice(old, os, oe), Slice(new, ns, ne))
   IN SumSeq([i \in 1..Len(ops) |->
         IF IsEqual(ops[i])
-        THEN Cardinality({j \in 0..(OL(ops[i]) - 1) : AtS(old, OI(ops[i]) + j) \in U})
+        THEN Cardinality({j \in 0..(OL(ops[i]) - 1) :
+                 \* inside both ranges, a common unique item, matched to its unique counterpart
+                 /\ OI(ops[i]) + j >= os /\ OI(ops[i]) + j < oe /\ NI(ops[i]) + j >= ns /\ NI(ops[i]) + j < ne
+                 /\ AtS(old, OI(ops[i]) + j) \in U
+                 /\ AtS(new, NI(ops[i]) + j) = AtS(old, OI(ops[i]) + j)})
         ELSE 0])
 =============================================================================
